@@ -72,6 +72,7 @@ def systematic(tier):
                                               'order': list(order), 'gaps': [gap] * (level + 1), 'future_kind': kind})
     for outcome in ('value', 'exc', 'factory_raises'):
         cases.append({'adapter': 'create_task', 'awaits': [0, 1], 'outcome': outcome, 'others': 1})
+        cases.append({'adapter': 'create_task', 'awaits': [0, 1], 'outcome': outcome, 'others': 1, 'from_thread': True})
     for scenario in ('run', 'run_raises', 'run_twice', 'cancel_run', 'run_cancel', 'run_raises_twice', 'run_interrupted_twice'):
         cases.append({'adapter': 'action', 'scenario': scenario})
     _sys_cache['all'] = cases
@@ -85,7 +86,8 @@ def random_case(rng, tier):
                                                              'run_raises_twice', 'run_interrupted_twice'])}
     if adapter == 'create_task':
         return {'adapter': 'create_task', 'awaits': [rng.choice([0, 0.5, 1]) for _ in range(rng.randint(0, 3))],
-                'outcome': rng.choice(['value', 'value', 'exc', 'factory_raises']), 'others': rng.randint(0, 2)}
+                'outcome': rng.choice(['value', 'value', 'exc', 'factory_raises']), 'others': rng.randint(0, 2),
+                'from_thread': rng.random() < 0.4}
     depth = rng.randint(1, 4)
     outcome = rng.choice(['value', 'value', 'exc', 'cancel'])
     level = depth - 1 if outcome == 'value' else rng.randrange(depth)
@@ -287,7 +289,22 @@ def _run_create_task(case, plumpy, loop, result, events):
     with loop.running():
         for index in range(case.get('others', 0)):
             loop.create_task(other(index))
-        future = plumpy.futures.create_task(raising_factory if case['outcome'] == 'factory_raises' else coro, loop)
+        factory = raising_factory if case['outcome'] == 'factory_raises' else coro
+        if case.get('from_thread'):
+            # called the way LoopCommunicator calls it: from the communicator's thread, which has no event loop of its own
+            result.counters['create_task:from_communicator_thread'] += 1
+            try:
+                with loop.foreign_thread():
+                    future = plumpy.futures.create_task(factory, loop)
+            except Exception as exc:  # noqa: BLE001
+                result.violate('wrong_outcome', 'create_task:from_thread',
+                               f'create_task called from another thread than the loop\'s raised {exc!r}')
+                return
+            if loop.thread_violations:
+                result.violate('thread_unsafe_scheduling', 'create_task', f'create_task scheduled on the loop from another '
+                                                                          f'thread through {loop.thread_violations[:2]}')
+        else:
+            future = plumpy.futures.create_task(factory, loop)
         if future.done():
             result.violate('early_completion', 'create_task', 'the future was done before the coroutine ran')
         while loop.step_once():
